@@ -40,7 +40,7 @@ def strip_used(x):
 
 
 def allof_depth(doc):
-    tt = {b["name"]: b["body"] for b in doc if b["t"] == "type"}
+    tt = {b["name"]: b["body"] for b in doc if b["t"] == "type" and "body" in b}
 
     def dep(n, seen=()):
         b = tt.get(n)
@@ -140,6 +140,42 @@ def main(tier):
             cid = "fp%d_%d" % (n, j)
             cases.append(rel.case(cid, text))
             faulty[cid] = (f, p, text)
+    # documents that are NOT valid (Valid(doc) = FALSE for a reason that no ordering cures: undefined or unusable references,
+    # clashes): never turned into accepted ones by reordering
+    import c04
+    inv = [m for m in c04.gen_docs(chk, 3000 if tier == "thorough" else 500, 5, seed() * 100 + 11, workers=4) if not m["valid"] and len(m["doc"]) >= 2]
+    for n, m in enumerate(inv):
+        d = m["doc"]
+        try:
+            base = apidoc.render(d)[0]
+        except Exception:
+            continue
+        cases.append(rel.case("ib%d" % n, base))
+        idx = list(range(len(d)))
+        perms = [idx[::-1], idx[1:] + idx[:1]]
+        p3 = idx[:]
+        rnd.shuffle(p3)
+        perms.append(p3)
+        for j, p in enumerate(perms):
+            if p == idx:
+                continue
+            try:
+                text = apidoc.render([d[i] for i in p])[0]
+            except Exception:
+                continue
+            cid = "ip%d_%d" % (n, j)
+            cases.append(rel.case(cid, text))
+            meta[cid] = ("ib%d" % n, list(p), m, base, text)
+    # a type of every notation used as the body of a request / response, declared before and after its use
+    for k, (nm, decl) in enumerate([("any", ["TYPE @zop any"]), ("empty", ["TYPE @zop empty"]), ("regex", ["TYPE @zop regex", "  /a+/"]),
+                                    ("jsight", ["TYPE @zop", "{", '  "a": 1', "}"]), ("alias", ["TYPE @zop", "  @zop2", "TYPE @zop2 any"])]):
+        for u, use in enumerate([["GET /zuse", "  200 @zop"], ["POST /zuse", "  Request @zop", "  200 any"], ["PUT /zuse", "  Request", "    Body @zop", "  200", "    Body @zop"],
+                                 ["GET /zuse", "  200 [@zop]"]]):
+            a = "JSIGHT 0.3\n" + "\n".join(decl + use) + "\n"
+            b = "JSIGHT 0.3\n" + "\n".join(use + decl) + "\n"
+            cases.append(rel.case("ob%d_%d" % (k, u), a))
+            cases.append(rel.case("op%d_%d" % (k, u), b))
+            meta["op%d_%d" % (k, u)] = ("ob%d_%d" % (k, u), [1, 0], {"doc": [{"t": "raw"}]}, a, b)
     obs = harness("run", cases)
     for cid, (f, p, text) in faulty.items():
         o = obs[cid]
